@@ -820,6 +820,7 @@ func (tr *Trans) bindLoops() {
 		if best != nil {
 			best.assigned = true
 			l.Key = best.key
+			l.Pos = best.pos
 		}
 	}
 	// disambiguate duplicate keys by ordinal in source order
